@@ -29,10 +29,7 @@ type histParams struct {
 func (w *World) bootSync(rounds int) bool {
 	for i := 0; i < rounds; i++ {
 		w.Tick(100 * time.Millisecond)
-		for w.P != nil && len(w.P.pending) > 0 {
-			w.Answer(w.P, 0)
-			w.settle()
-		}
+		w.answerRound()
 		w.pingNode()
 		w.Tick(250 * time.Millisecond)
 		if ok, _ := w.Converged(); ok && w.Node.IsReady(core.Ctx()) && w.P != nil && len(w.P.pending) == 0 && w.P.sendHeaders {
@@ -55,6 +52,9 @@ func (w *World) pingNode() {
 // applyEvent performs one environment event; returns false if it is not applicable.
 func (w *World) applyEvent(ev string) bool {
 	w.hist = append(w.hist, ev)
+	if traceOn {
+		w.tracef("EVENT %s", ev)
+	}
 	p := strings.Split(ev, ":")
 	switch p[0] {
 	case "ans":
@@ -75,6 +75,13 @@ func (w *World) applyEvent(ev string) bool {
 		d, _ := strconv.Atoi(p[1])
 		n, _ := strconv.Atoi(p[2])
 		if !w.Reorg(d, n) {
+			return false
+		}
+		w.Announce(w.P)
+		w.settle()
+	case "back":
+		k, _ := strconv.Atoi(p[1])
+		if !w.Back(k) {
 			return false
 		}
 		w.Announce(w.P)
@@ -101,6 +108,18 @@ func (w *World) applyEvent(ev string) bool {
 		w.settle()
 	case "restart":
 		w.CleanRestart()
+	case "settle":
+		// macro event: the peer answers what is outstanding, announces, pings; short clock steps
+		for i := 0; i < 12; i++ {
+			w.answerRound()
+			w.Announce(w.P)
+			w.settle()
+			w.pingNode()
+			w.Tick(300 * time.Millisecond)
+			if ok, _ := w.Converged(); ok && (w.P == nil || len(w.P.pending) == 0) {
+				break
+			}
+		}
 	default:
 		panic("unknown event " + ev)
 	}
@@ -154,10 +173,7 @@ func (w *World) drainConverge() (bool, string) {
 	phase := func(rounds int) bool {
 		stable := 0
 		for i := 0; i < rounds; i++ {
-			for w.P != nil && len(w.P.pending) > 0 {
-				w.Answer(w.P, 0)
-				w.settle()
-			}
+			w.answerRound()
 			w.Announce(w.P)
 			w.settle()
 			w.pingNode()
@@ -328,6 +344,8 @@ func (w *World) eventEnabled(ev string) bool {
 	case "reorg":
 		d, _ := strconv.Atoi(p[1])
 		return d < len(w.Best)-1
+	case "back":
+		return len(w.Abandoned) > 0
 	case "ping", "drop":
 		return w.P != nil && w.P.conn != nil && !w.P.conn.IsClosed()
 	case "dup":
@@ -361,4 +379,18 @@ func histExpand(params json.RawMessage, hist []string) []core.Succ {
 
 func init() {
 	core.RegisterExpander("hist", histExpand)
+}
+
+// answerRound answers the requests that are outstanding now (not the ones the answers provoke:
+// while it waits for blocks the node re-polls getheaders after every answer, which with a
+// zero-latency peer would never end).
+func (w *World) answerRound() {
+	if w.P == nil {
+		return
+	}
+	n := len(w.P.pending)
+	for i := 0; i < n && w.P != nil && len(w.P.pending) > 0; i++ {
+		w.Answer(w.P, 0)
+		w.settle()
+	}
 }
